@@ -379,7 +379,7 @@ Section Thm.
     cf_save val cfg = true -> f_not_nan val o -> Inv s sp -> Inv (step s o) (spec_step sp o).
   Proof.
     intros Hsave Hnn. destruct sp as [l ib]. intros (Hs & Ho & Hl & Hb0 & Hb1). simpl in *.
-    destruct o as [| |x f g| | |x f g k| |].
+    destruct o as [| |x f g| | |x f g k| | |xe].
     - (* EstimateStart *)
       destruct (start_effect s EstimateStart (or_introl eq_refl)) as (_ & B & S & O).
       unfold Inv; cbn [Iter.spec_step fst snd]. rewrite B, S, O. repeat split; auto. congruence.
@@ -443,6 +443,8 @@ Section Thm.
     - (* BootstrapAbort *)
       unfold Inv; simpl. rewrite (ok_abort_resumes c OK), (ok_abort_restores c OK). simpl.
       repeat split; auto; try discriminate.
+    - (* EstimateEnd: only the starting values change *)
+      unfold Inv, Iter.step; simpl. destruct (len_ok xe); simpl; repeat split; auto.
   Qed.
 
   Lemma inv_run h : forall s sp,
@@ -538,7 +540,7 @@ Section Thm.
                                absent_or_complete d0 (hx ++ evaluated val [o]) d').
     { intros d' E. apply (aoc_mono d0 hx); [apply incl_appl, incl_refl|].
       destruct H as [H | (x & L & H & Hx)]; [left; congruence|right; exists x; rewrite E; auto]. }
-    destruct o as [| |x f g| | |x f g k| |].
+    destruct o as [| |x f g| | |x f g k| | |xe].
     - apply Hsame. destruct (start_effect s EstimateStart (or_introl eq_refl)) as (F & _). rewrite F. reflexivity.
     - apply Hsame. destruct (start_effect s QuickStart (or_intror eq_refl)) as (F & _). rewrite F. reflexivity.
     - destruct (eval_effect s x f g) as (_ & _ & _ & [(F & _) | (G & F & _)]).
@@ -557,6 +559,7 @@ Section Thm.
       + right. exists x. split; [exact L|]. split; [exact E|]. left. apply in_or_app. right. simpl. auto.
     - apply Hsame. reflexivity.
     - apply Hsame. reflexivity.
+    - apply Hsame. unfold Iter.step. destruct (len_ok xe); reflexivity.
   Qed.
 
   Lemma evaluated_app h1 h2 : evaluated val (h1 ++ h2) = evaluated val h1 ++ evaluated val h2.
@@ -627,7 +630,7 @@ Section Thm.
   Proof.
     induction h as [|o h IH]; intros s H; [exact H|].
     change (run s (o :: h)) with (run (step s o) h). apply IH.
-    destruct o as [| |x f g| | |x f g k| |].
+    destruct o as [| |x f g| | |x f g k| | |xe].
     - destruct (start_effect s EstimateStart (or_introl eq_refl)) as (_ & _ & S & O). rewrite S, O. exact H.
     - destruct (start_effect s QuickStart (or_intror eq_refl)) as (_ & _ & S & O). rewrite S, O. exact H.
     - destruct (eval_effect s x f g) as (S & O & _). rewrite S, O. exact H.
@@ -636,6 +639,7 @@ Section Thm.
     - unfold Iter.step. destruct (len_ok x); [destruct (save_plan _ _ _ _ _ _ _ _)|]; simpl; discriminate.
     - simpl. discriminate.
     - simpl. rewrite (ok_abort_restores c OK). discriminate.
+    - unfold Iter.step. destruct (len_ok xe); simpl; exact H.
   Qed.
 
   (* the shape of a complete file: one line `name = str(value)` per free parameter, in the
